@@ -613,6 +613,8 @@ class RawClient:
         self.replies = []  # list of (code, [lines]) in arrival order
         self.raw = bytearray()
         self.eof = False
+        self.eof_time = None
+        self.reply_times = []
         self._task = None
         self.data = None  # (reader, writer) of the current data connection
 
@@ -629,7 +631,9 @@ class RawClient:
                 line = await self.reader.readline()
                 if not line:
                     self.eof = True
+                    self.eof_time = asyncio.get_running_loop().time()
                     return
+                self.reply_times.append(asyncio.get_running_loop().time())
                 self.raw += line
                 s = line.decode("utf-8", "replace").rstrip("\r\n")
                 if cur is None:
@@ -649,6 +653,11 @@ class RawClient:
                         cur[1].append(s)
         except (ConnectionError, asyncio.CancelledError):
             self.eof = True
+            if self.eof_time is None:
+                try:
+                    self.eof_time = asyncio.get_running_loop().time()
+                except RuntimeError:
+                    pass
 
     def send(self, line):
         if isinstance(line, str):
